@@ -484,6 +484,9 @@ def check(prop, tier, verif_seed, n=None, workers=None, out=sys.stdout):
     import props
     spec = props.PROPS[prop]
     n = n or spec.runs[tier]
+    scale = float(os.environ.get('VERIF_SCALE', '1') or 1)
+    if scale != 1:
+        n = max(50, int(n * scale))
     t0 = time.time()
     print('property=%s tier=%s VERIF_SEED=%d runs=%d' % (prop, tier,
                                                          verif_seed, n),
